@@ -1047,14 +1047,8 @@ class C19(Property):
 
 def script_inputs(script):
     """(path, member) pairs named by the input statements of a script text"""
-    import re
-    out = []
-    for line in script.split("\n"):
-        t = line.strip()
-        m = re.match(r"^(?:KEEP\()?([^()\s:;=]+)(?::([^()\s]+))?\(([^()]*)\)\)?;$", t)
-        if m and not t.startswith("*(") and " = " not in t:
-            out.append((m.group(1), m.group(2)))
-    return out
+    from . import image
+    return [(st["path"], st["member"]) for st in image.parse_script(script) if st["kind"] == "input"]
 
 
 def link_syntax_check(c, impl):
@@ -1208,6 +1202,377 @@ class C20(Property):
             shutil.rmtree(d, ignore_errors=True)
 
 
+class ImageProperty(Property):
+    """layout properties: text-level correspondence/projection on every case + real links (GNU ld) on a sample"""
+    quick_n = 360
+    thorough_n = 12000
+    link_every = 3
+    checks = ()
+
+    def base_profile(self, r, **kw):
+        base = dict(p_braces=0.0, p_missing_key=0.0, p_toplevel=0.0, p_cond=0.2, p_partial=0.0, p_single=0.1, dpath=0.1, header=0.1)
+        base.update(kw)
+        return Profile(**base)
+
+    def make_case(self, seed, idx):
+        c = Property.make_case(self, seed, idx)
+        c["link"] = idx % self.link_every == 0
+        return c
+
+    def image_checks(self, L, info, c):
+        return [], []
+
+    def evaluate(self, w, c):
+        impl, v = w.eval(c, [self.pid])
+        res = self.judge(c, impl, v, w)
+        if res["status"] not in ("ok", "corr") or impl.get("outcome") != "ok":
+            return res
+        # a broken correspondence makes every case worth a link: look for a concrete failing image
+        if not (c.get("link") or res["status"] == "corr"):
+            return res
+        out = link_and_check(self, w, c, impl)
+        if res["status"] == "corr" and out.get("status") is None:
+            out.pop("why", None)
+        res.update(out)
+        return res
+
+
+def link_and_check(spec, w, c, impl):
+    from . import image
+    info = w.d.ask({"op": "docinfo", "case": {"id": c["id"], "doc": tree.to_proto(c["doc"]), "opts": c["opts"]}})
+    if not info or "segments" not in info:
+        return {"linked": "no-docinfo"}
+    scripts = [("main", impl["script"])] + [(n, t) for n, t in impl.get("partials", [])]
+    rng = Rng(c.get("seed", 1) ^ 0x5EED)
+    L = image.build_and_link("p%s" % spec.pid, scripts, info, rng)
+    if isinstance(L, str):
+        return {"linked": "skip:" + L}
+    try:
+        if not L.ok:
+            return {"linked": "link-failed", "link_log": L.log[-300:]}
+        bad, kf = spec.image_checks(L, info, c)
+        out = {"linked": "ok"}
+        if bad:
+            out.update(status="violation", why="linked image (GNU ld): " + "; ".join(bad[:3]), image_failures=bad[:10])
+        elif kf:
+            out.update(status="kf:" + sorted(set(kf))[0], why="known finding " + sorted(set(kf))[0])
+        return out
+    finally:
+        L.lab.close()
+
+
+class C03(ImageProperty):
+    pid = "C03"
+    title = "segment VRAM start"
+    rule = ("linkable valid-stream documents with every mix of fixed_vram / fixed_symbol / follows_segment / vram_class / default placement "
+            "over 1-4 segments, excluded subsets, start/end alignments with and without explicit addresses, input alignments 1..16, empty "
+            "parts, single-segment mode; a third of the cases is linked with GNU ld; non-trivial: two emitted segments with two different address kinds")
+
+    def profile(self, r):
+        return self.base_profile(r, p_addr=0.75, p_classes=0.5, p_align=0.6, p_segment_override=0.3)
+
+    def nontrivial(self, c):
+        kinds = set()
+        for s in c["doc"].get("segments", []):
+            kinds.add(next((k for k in ("fixed_vram", "fixed_symbol", "follows_segment", "vram_class") if k in s), "default"))
+        return len(kinds) >= 2
+
+    def image_checks(self, L, info, c):
+        from . import image
+        return image.check_vram(L, info), []
+
+
+class C04(ImageProperty):
+    pid = "C04"
+    title = "ROM positions"
+    rule = ("linkable multi-segment documents with per-segment start/end alignments (incl. end-only and null overrides), overlays sharing "
+            "VRAM through classes, per-segment noload lists, noload inputs with contents, excluded subsets; a third linked with GNU ld; "
+            "non-trivial: two segments and some alignment")
+
+    def profile(self, r):
+        return self.base_profile(r, p_single=0.0, p_align=0.8, p_classes=0.5, p_addr=0.6, p_segment_override=0.4, p_settings_field=0.3)
+
+    def nontrivial(self, c):
+        ks = ("segment_start_align", "segment_end_align")
+        st = c["doc"].get("settings") or {}
+        return len(c["doc"].get("segments", [])) >= 2 and (any(k in st for k in ks) or any(k in s for s in c["doc"]["segments"] for k in ks))
+
+    def image_checks(self, L, info, c):
+        from . import image
+        return image.check_rom(L, info), []
+
+
+class C05(ImageProperty):
+    pid = "C05"
+    title = "linker symbols"
+    rule = ("linkable documents in both styles with section names without a leading dot, .rodata, multi-dot and mixed-case names, per-segment "
+            "list overrides, linker offsets, classes (used, unused, only excluded members), excluded subsets, single-segment mode; a third "
+            "linked with GNU ld (size = end - start, start <= end, brackets); non-trivial: makerom style, a non-default section name, an offset or a class")
+
+    def profile(self, r):
+        return self.base_profile(r, p_makerom=0.5, p_offset=0.3, p_classes=0.5, p_custom_lists=0.6, p_cond=0.3, p_addr=0.5)
+
+    def nontrivial(self, c):
+        d = c["doc"]
+        st = d.get("settings") or {}
+        return st.get("linker_symbols_style") == "makerom" or "alloc_sections" in st or bool(d.get("vram_classes")) or \
+            any(f.get("kind") == "linker_offset" for f in all_files(d))
+
+    def image_checks(self, L, info, c):
+        from . import image
+        bad, kf = image.check_symbols(L, info)
+        r = image.check_brackets_and_order(L, info, L.main_stmts)
+        return bad + r["C05"], kf
+
+
+class C09(ImageProperty):
+    pid = "C09"
+    title = "alignments in the image"
+    rule = ("linkable documents with every presence combination of the six alignment options at global and segment level (values 1..0x1000, "
+            "null overrides), subalign with smaller natural input alignments, misaligned fixed_vram, single-segment mode; a third linked; "
+            "non-trivial: two alignment options on one segment")
+
+    def profile(self, r):
+        return self.base_profile(r, p_align=0.9, p_settings_field=0.4, p_segment_override=0.5, p_addr=0.5, p_single=0.15)
+
+    def tweak(self, r, c):
+        for s in c["doc"].get("segments", []):
+            if r.chance(0.3):
+                s["subalign"] = r.pick([8, 16, 32])
+
+    def nontrivial(self, c):
+        ks = ("subalign", "segment_start_align", "segment_end_align", "section_start_align", "section_end_align",
+              "sections_start_alignment", "sections_end_alignment")
+        st = c["doc"].get("settings") or {}
+        return any(sum(1 for k in ks if k in s or k in st) >= 2 for s in c["doc"].get("segments", []))
+
+    def image_checks(self, L, info, c):
+        from . import image
+        return image.check_align(L, info, L.main_stmts), []
+
+
+class C10(ImageProperty):
+    pid = "C10"
+    title = "vram classes"
+    owns_errors = ("MissingVramClassForSegment",)
+    rule = ("linkable documents with 1-3 classes of the three kinds, follow DAGs whose dependencies precede, members interleaved with "
+            "non-members, classes with no or only excluded members, undeclared classes on emitted and on excluded segments, both modes; a third "
+            "linked; non-trivial: a class with two members or a follower")
+
+    def profile(self, r):
+        return self.base_profile(r, p_classes=0.95, p_addr=0.9, p_single=0.0, p_cond=0.3, p_partial=0.25, max_segments=5)
+
+    def tweak(self, r, c):
+        d = c["doc"]
+        names = [x["name"] for x in d.get("vram_classes") or []]
+        for s in d.get("segments", []):
+            if names and r.chance(0.5):
+                for k in ("fixed_vram", "fixed_symbol", "follows_segment"):
+                    s.pop(k, None)
+                s["vram_class"] = r.pick(names)
+            elif r.chance(0.04):
+                for k in ("fixed_vram", "fixed_symbol", "follows_segment"):
+                    s.pop(k, None)
+                s["vram_class"] = "undeclared_class"
+        if c["mode"] == "partial":
+            st = d.setdefault("settings", {})
+            st.setdefault("partial_scripts_folder", "ps")
+            st.setdefault("partial_build_segments_folder", "pb")
+            c["link"] = False
+
+    def nontrivial(self, c):
+        d = c["doc"]
+        cl = d.get("vram_classes") or []
+        members = {}
+        for s in d.get("segments", []):
+            if "vram_class" in s:
+                members[s["vram_class"]] = members.get(s["vram_class"], 0) + 1
+        return any(v >= 2 for v in members.values()) or any("follows_classes" in x for x in cl)
+
+    def image_checks(self, L, info, c):
+        from . import image
+        return image.check_classes(L, info), []
+
+
+class C01(ImageProperty):
+    pid = "C01"
+    title = "every listed input section placed exactly once"
+    rule = ("linkable documents with groups to depth 3, archives with and without subfile, per-segment section lists, section_order (also "
+            "inside groups and onto sub-group sections), sections_subgroups (also nested), pads/offsets, all three modes at text level; a third "
+            "linked with GNU ld (every configured section of every listed file inside its segment, none discarded); non-trivial: a group, a "
+            "section_order, a sub-group or an archive")
+
+    def profile(self, r):
+        return self.base_profile(r, p_group=0.4, max_depth=3, p_archive=0.35, p_section_order=0.35, p_subgroups=0.5, p_custom_lists=0.5,
+                                 p_partial=0.2, p_single=0.12)
+
+    def tweak(self, r, c):
+        if c["mode"] == "partial":
+            c["link"] = False
+
+    def nontrivial(self, c):
+        fs = list(all_files(c["doc"]))
+        st = c["doc"].get("settings") or {}
+        return any(f.get("kind") == "group" or "section_order" in f or str(f.get("path", "")).endswith(".a") for f in fs) or \
+            "sections_subgroups" in st or any("sections_subgroups" in s for s in c["doc"].get("segments", []))
+
+    def image_checks(self, L, info, c):
+        from . import image
+        r = image.check_brackets_and_order(L, info, L.main_stmts)
+        return r["C01"], []
+
+
+class C02(C01):
+    pid = "C02"
+    title = "layout order follows the document"
+    rule = ("as C01, with two section_order files in one group, pads between groups, per-segment noload lists in another order than the "
+            "global one, conditionally included nested groups; a third linked (addresses never decrease along the statement order of an output "
+            "section, ROM positions never decrease in segment order); non-trivial: two entries and a group, pad, offset or section_order")
+
+    def profile(self, r):
+        return self.base_profile(r, p_group=0.4, max_depth=3, p_pad=0.25, p_offset=0.2, p_section_order=0.35, p_subgroups=0.4,
+                                 p_custom_lists=0.5, p_cond=0.35, p_partial=0.2)
+
+    def image_checks(self, L, info, c):
+        from . import image
+        r = image.check_brackets_and_order(L, info, L.main_stmts)
+        return r["C02"], []
+
+
+class C11(Property):
+    pid = "C11"
+    title = "partial linking equals one-step linking"
+    owns_errors = ("MissingRequiredField",)
+    quick_n = 300
+    thorough_n = 8000
+    link_every = 4
+    rule = ("linkable multi-segment documents with groups, section_order, sub-groups, archives, pads, offsets, excluded segments (all four "
+            "condition lists, several pairs), segment dir, dotted segment names, {key} in both folders, missing folders; every case is generated "
+            "in ordinary and in partial mode and compared by the Lean predicate C11.holds; a quarter is linked both ways with GNU ld "
+            "(ld -r per partial script, then the main script) and marker order / segment membership are compared; "
+            "non-trivial: two emitted segments and a sub-group, section_order or pad")
+
+    def profile(self, r):
+        return Profile(p_braces=0.15, p_missing_key=0.0, p_toplevel=0.15, p_partial=1.0, p_single=0.0, p_group=0.35, p_pad=0.2,
+                       p_offset=0.15, p_section_order=0.3, p_subgroups=0.4, p_cond=0.35, dpath=0.2, header=0.2, max_segments=4)
+
+    def tweak(self, r, c):
+        c["mode"] = "partial"
+        st = c["doc"].setdefault("settings", {})
+        st.setdefault("partial_scripts_folder", "ps")
+        st.setdefault("partial_build_segments_folder", "segments")
+        if r.chance(0.04):
+            st.pop("partial_build_segments_folder", None)
+        # conditions with several pairs on segments; dotted names
+        for sgm in c["doc"].get("segments", []):
+            if r.chance(0.25):
+                k = r.pick(list(COND_KEYS))
+                sgm[k] = gen.gen_pairs(r, 2 + r.below(2))
+            if r.chance(0.1):
+                sgm["name"] = sgm["name"] + "." + r.pick(["title", "select", "x"])
+        c["link"] = False
+
+    def make_case(self, seed, idx):
+        c = Property.make_case(self, seed, idx)
+        c["link"] = idx % self.link_every == 0
+        return c
+
+    def nontrivial(self, c):
+        d = c["doc"]
+        fs = list(all_files(d))
+        st = d.get("settings") or {}
+        return len(d.get("segments", [])) >= 2 and (any("section_order" in f or f.get("kind") == "pad" for f in fs) or "sections_subgroups" in st)
+
+    def evaluate(self, w, c):
+        from .engine import impl_request
+        implP, v = w.eval(c, [self.pid])
+        res = self.judge(c, implP, v, w)
+        if res["status"] not in ("ok", "corr") or implP.get("outcome") != "ok":
+            return res
+        cn = dict(c, mode="normal", id=c["id"] + ":normal")
+        implN = w.h.run(impl_request(cn))
+        if implN.get("outcome") != "ok":
+            res.update(status="skip", why="ordinary generation failed: %s" % implN.get("err_kind"))
+            return res
+        pc = {"id": c["id"], "doc": tree.to_proto(c["doc"]), "opts": c["opts"], "version_comment": c.get("version_comment", False)}
+        r = w.d.ask({"op": "c11", "case": pc, "normal": implN, "partial": implP})
+        if not r or "holds_impl" not in r:
+            res.update(status="corr", why="driver failed")
+            return res
+        if not r["holds_impl"]:
+            res.update(status="violation", why=r["why"])
+            return res
+        if not r["holds_model"]:
+            res.update(status="corr", why="predicate fails on the model: " + r.get("why_model", ""))
+            return res
+        if c.get("link") or res["status"] == "corr":
+            out = two_step_check(w, c, implN, implP)
+            res.update(out)
+        return res
+
+
+def two_step_check(w, c, implN, implP):
+    from . import image
+    info = w.d.ask({"op": "docinfo", "case": {"id": c["id"], "doc": tree.to_proto(c["doc"]), "opts": c["opts"]}})
+    if not info or "segments" not in info:
+        return {"linked": "no-docinfo"}
+    seed = c.get("seed", 1) ^ 0xC11
+    L1 = image.build_and_link("c11a", [("main", implN["script"])], info, Rng(seed), extra_sections=False)
+    if isinstance(L1, str):
+        return {"linked": "skip:" + L1}
+    try:
+        if not L1.ok:
+            return {"linked": "link-failed(one-step)"}
+        L2 = image.build_and_link("c11b", [("main", implP["script"])] + [(n, t) for n, t in implP.get("partials", [])], info, Rng(seed),
+                                  extra_sections=False)
+        if isinstance(L2, str):
+            return {"linked": "skip:" + L2}
+        try:
+            if not L2.ok:
+                return {"linked": "ok", "status": "violation",
+                        "why": "two-step link fails where the one-step link succeeds: " + L2.log[-300:]}
+            bad = []
+            # zero-sized input sections can sit on a segment boundary: leave them out of the comparison
+            zero = set()
+            for (pth, mem), secs in L1.objects.items():
+                for sec, size, al, nb in secs:
+                    if size == 0:
+                        from . import ldlab
+                        zero.add(ldlab.marker(pth if mem is None else pth + ":" + mem, sec))
+            for L in (L1, L2):
+                L.symbols = {k: a for k, a in L.symbols.items() if k not in zero}
+            for s in image.emitted(info):
+                def members(L):
+                    v, ve = image.sym(L, s["vram"]), image.sym(L, s["vram_end"])
+                    ms = [(a, k) for k, a in L.symbols.items() if k.startswith("mk__") and v is not None and ve is not None and v <= a < ve]
+                    return [k for a, k in sorted(ms)]
+                m1, m2 = members(L1), members(L2)
+                if sorted(m1) != sorted(m2):
+                    bad.append("segment %s holds different input sections after two-step linking: only one-step %s, only two-step %s" % (
+                        s["name"], sorted(set(m1) - set(m2))[:3], sorted(set(m2) - set(m1))[:3]))
+            missing = [k for k in L1.symbols if k.startswith("mk__") and k not in L2.symbols]
+            if missing:
+                bad.append("input sections lost by the two-step link: %s" % missing[:3])
+            if not bad:
+                # relative order inside every segment (zero-sized sections may tie)
+                for s in image.emitted(info):
+                    v, ve = image.sym(L1, s["vram"]), image.sym(L1, s["vram_end"])
+                    ks = [k for k, a in L1.symbols.items() if k.startswith("mk__") and v is not None and v <= a < ve]
+                    o1 = sorted(ks, key=lambda k: L1.symbols[k])
+                    for a, b in zip(o1, o1[1:]):
+                        if L1.symbols[a] < L1.symbols[b] and L2.symbols.get(a, 0) > L2.symbols.get(b, 0):
+                            bad.append("segment %s: %s precedes %s after one-step linking but follows it after two-step linking" % (s["name"], a, b))
+                            break
+            out = {"linked": "ok"}
+            if bad:
+                out.update(status="violation", why="two-step link (ld -r per segment, then main): " + "; ".join(bad[:2]))
+            return out
+        finally:
+            L2.lab.close()
+    finally:
+        L1.lab.close()
+
+
 OVER = ["alloc_sections", "noload_sections", "subalign", "segment_start_align", "segment_end_align",
         "section_start_align", "section_end_align", "sections_start_alignment", "sections_end_alignment",
         "wildcard_sections", "fill_value", "sections_subgroups"]
@@ -1297,4 +1662,4 @@ class C08(Property):
         return cases
 
 
-PROPS = {p.pid: p for p in [C06(), C07(), C08(), C12(), C13(), C14(), C15(), C16(), C17(), C18(), C19(), C20()]}
+PROPS = {p.pid: p for p in [C01(), C02(), C03(), C04(), C05(), C09(), C10(), C11(), C06(), C07(), C08(), C12(), C13(), C14(), C15(), C16(), C17(), C18(), C19(), C20()]}
